@@ -119,7 +119,8 @@ func init() {
 	reg(&Profile{Name: "c14", PForged: 15, Property: "C14", Oracles: []string{"roots", "c14proto"},
 		Nodes: func(r *Rng) []NodeCfg {
 			return []NodeCfg{{Kind: "mappartial", TotalRows: -1, DetMaps: r.Bool()}, {Kind: "mappartial", TotalRows: 0}, mapNode("mappartial", r), {Kind: "stump"},
-				{Kind: "mappartial", TotalRows: -1, Big: bigOffset(r)}, {Kind: "stump", Big: bigOffset(r)}}
+				{Kind: "mappartial", TotalRows: -1, Big: bigOffset(r)}, {Kind: "stump", Big: bigOffset(r)},
+				{Kind: "mappartial", TotalRows: -1, FromRoots: 1 + r.Intn(3), FullRoots: true}}
 		},
 		MaxBlocks: 25, MaxAdds: 32, PReorg: 8, PCacheOps: 25, PQuery: 60, NetFaults: true,
 		QueryModes: []string{"addproof", "subset", "missing", "pmissing"}})
